@@ -14,5 +14,5 @@ CONSTANTS
   PCaps = {0}
   Junk = 34
   EmitOn = TRUE
-INVARIANTS ResumeEqFresh Stable OffsSane Emit
+INVARIANTS ResumeEqFresh Idempotent Stable OffsSane Emit
 CHECK_DEADLOCK FALSE
